@@ -21,6 +21,7 @@ func H_C10_end() {
 	ns := vfParam("s", 0)
 	fault := vfParam("fault", 0)
 	hmode := vfParam("hmode", 0)
+	orphan := vfParam("orphan", 0) // stray bodies for never-opened streams first (each refused with a reset)
 	rst := vfParam("rst", 0) // the peer resets each stream it opened (the handler is then slow to return)
 	impl := &zzImpl{}
 	unaryStarted, unaryReturned, unaryCtxDoneAtReturn := 0, 0, 0
@@ -92,6 +93,10 @@ func H_C10_end() {
 	}()
 	go func() {
 		id := uint64(1)
+		for i := 0; i < orphan; i++ {
+			// a body for a stream that was never opened: the server refuses it with a reset of its own
+			conn.in <- &Rpc{Id: 70 + uint64(i), Header: zzReqHdr("BidiStream"), Body: zzBody(1)}
+		}
 		for i := 0; i < u; i++ {
 			conn.in <- &Rpc{Id: id, Header: zzReqHdr("Unary"), Body: zzBody(5)}
 			id++
